@@ -174,6 +174,15 @@ func Pause() { time.Sleep(20 * time.Millisecond) }
 // VisibleAtomics(true) makes sync/atomic operations scheduling points of the executor.
 func VisibleAtomics(on bool) {}
 
+// Watch makes the executor treat every plain load and store of the object p points into as a
+// scheduling point (bounded by the pre-emption bound): data races on ordinary fields - lost
+// updates, multi-step updates seen half done - become explorable. No effect natively.
+func Watch(p interface{}) {}
+
+// WatchAll(true) does the same for every object that is not a non-escaping local variable: meant
+// for short windows (a few callbacks running concurrently).
+func WatchAll(on bool) {}
+
 // AdvanceClock lets n seconds of the executor's concrete clock pass; natively it sleeps n*10ms
 // (harnesses scale their time-outs accordingly, see Unit).
 func AdvanceClock(n int) { time.Sleep(time.Duration(n) * 10 * time.Millisecond) }
